@@ -1809,5 +1809,315 @@ Proof.
     - subst cx. reflexivity. }
   rewrite Hcx3. cbn [obind].
   unfold pkt_node, er_node in L6, L1. rewrite L6. rewrite Rev3. cbn [obind].
-  unfold is_true. rewrite L1. reflexivity.
+  unfold is_true. rewrite L1. rewrite (no_clk_erase _ V4), (no_clk_erase _ V3). reflexivity.
+Qed.
+
+(* ================================================================== `$default-stream` *)
+Lemma sub_ext : forall k l l', lookup k l = lookup k l' -> sub k l = sub k l'.
+Proof. intros. unfold sub. now rewrite H. Qed.
+Lemma rd_ft_ext : forall f k l l', lookup k l = lookup k l' -> rd_ft f k l = rd_ft f k l'.
+Proof. intros. unfold rd_ft. now rewrite (opt_of_ext _ _ _ _ H). Qed.
+
+Lemma v3_stream_default : forall fuel dl s,
+  v3_stream fuel (YMap dl) = Some s ->
+  v3_stream fuel (YMap (put "$is-default" (YBool true) dl)) = Some (set_default s).
+Proof.
+  intros fuel dl s H. cbn [v3_stream] in *.
+  set (W := ["$is-default"; "$default-clock-type-name"; "$features"; "packet-context-field-type-extra-members";
+             "event-record-common-context-field-type"; "event-record-types"]) in *.
+  destruct (keys_in W dl) eqn:Hk; [|discriminate]. cbn [negb] in H.
+  assert (K : keys_in W (put "$is-default" (YBool true) dl) = true) by (unfold W in *; kin).
+  rewrite K. cbn [negb].
+  assert (L : forall k, String.eqb k "$is-default" = false -> lookup k (put "$is-default" (YBool true) dl) = lookup k dl).
+  { intros k Hk0. now rewrite lookup_put, Hk0. }
+  rewrite (rd_s_ext _ _ _ _ (L "$default-clock-type-name" eq_refl)).
+  rewrite (sub_ext _ _ _ (L "$features" eq_refl)).
+  rewrite (opt_of_ext _ _ _ _ (L "packet-context-field-type-extra-members" eq_refl)).
+  rewrite (rd_ft_ext (v3_ft fuel) _ _ _ (L "event-record-common-context-field-type" eq_refl)).
+  rewrite (L "event-record-types" eq_refl).
+  repeat match type of H with
+         | obind ?x _ = Some _ => destruct x; [cbn [obind] in H |- *|discriminate]
+         | match ?x with _ => _ end = Some _ => destruct x; try discriminate
+         end.
+  inversion H; subst s. unfold set_default. cbn. unfold is_true. rewrite lookup_put. reflexivity.
+Qed.
+
+Lemma mark_default_equiv : forall fuel n dsts ss,
+  named (v3_stream fuel) dsts = Some ss -> mem n (keys dsts) = true ->
+  exists dsts', mark_default (YStr n) dsts = Some dsts'
+                /\ named (v3_stream fuel) dsts' = Some (mark_first n ss).
+Proof.
+  intros fuel n. unfold named. induction dsts as [|[k y] dsts IH]; intros ss H Hm; simpl in *; [discriminate|].
+  destruct (v3_stream fuel y) as [s|] eqn:Es; simpl in H; [|discriminate].
+  destruct (omapM (fun kv => option_map (pair (fst kv)) (v3_stream fuel (snd kv))) dsts) as [ss'|] eqn:Ess; simpl in H; [|discriminate].
+  inversion H; subst ss. clear H. simpl.
+  destruct (String.eqb k n) eqn:Ek.
+  - destruct y as [| | | | | |dl]; try (destruct fuel; discriminate).
+    eexists. split; [reflexivity|]. cbn [omapM fst snd]. rewrite (v3_stream_default _ _ _ Es). cbn [option_map obind]. rewrite Ess. reflexivity.
+  - simpl in Hm. destruct (IH ss' eq_refl Hm) as [dsts' [D1 D2]].
+    rewrite D1. simpl. eexists. split; [reflexivity|]. simpl. rewrite Es. simpl. rewrite D2. reflexivity.
+Qed.
+
+(* ================================================================== the trace type node *)
+Definition tt_node (tl m : entries) (cl' : option entries) (feats dsts : entries) : entries :=
+  let tt := copy_prop [] tl "byte-order" "trace-byte-order" in
+  let tt := copy_prop tt tl "uuid" "uuid" in
+  let tt := copy_prop tt m "log-levels" "$log-level-aliases" in
+  let tt := copy_prop tt m "$log-levels" "$log-level-aliases" in
+  let tt := match cl' with Some c => tt ++ [("clock-types", YMap c)] | None => tt end in
+  (tt ++ [("$features", YMap feats)]) ++ [("data-stream-types", YMap dsts)].
+
+Lemma tt_node_lookups : forall tl m cl' feats dsts,
+  let n := tt_node tl m cl' feats dsts in
+  lookup "trace-byte-order" n = lookup "byte-order" tl
+  /\ lookup "uuid" n = lookup "uuid" tl
+  /\ lookup "$log-level-aliases" n = match lookup "$log-levels" m with Some v => Some v | None => lookup "log-levels" m end
+  /\ lookup "clock-types" n = option_map YMap cl'
+  /\ lookup "$features" n = Some (YMap feats)
+  /\ lookup "data-stream-types" n = Some (YMap dsts)
+  /\ keys_in ["trace-byte-order"; "uuid"; "$log-level-aliases"; "clock-types"; "$features"; "data-stream-types"] n = true.
+Proof.
+  intros tl m cl' feats dsts. unfold tt_node. destruct cl' as [c|]; cbv zeta; repeat split;
+    try (lk; destruct (lookup "byte-order" tl); destruct (lookup "uuid" tl); destruct (lookup "log-levels" m);
+         destruct (lookup "$log-levels" m); reflexivity);
+    kin.
+Qed.
+
+(* the packet header features *)
+Lemma trace_features_equiv : forall fuel tl phf mg uf sid,
+  hdr_ok fuel (opt_of "packet-header-type" tl) = true ->
+  v2_fields (opt_of "packet-header-type" tl) = Some phf ->
+  rd_ft (v2_ft fuel) "magic" phf = Some mg -> rd_ft (v2_ft fuel) "uuid" phf = Some uf ->
+  rd_ft (v2_ft fuel) "stream_id" phf = Some sid ->
+  no_clk_o mg = true -> no_clk_o uf = true -> no_clk_o sid = true ->
+  exists feats, trace_features (getn "packet-header-type" tl) = Ok feats
+    /\ v3_feature (v3_ft fuel) "magic-field-type" feats = Some mg
+    /\ v3_feature (v3_ft fuel) "uuid-field-type" feats = Some uf
+    /\ v3_feature (v3_ft fuel) "data-stream-type-id-field-type" feats = Some sid.
+Proof.
+  intros fuel tl phf mg uf sid Hok Hf Hm Hu Hs Nm Nu Ns.
+  assert (Hfeat : forall o r, (match o with
+                              | None => r = None
+                              | Some f => exists m, r = Some (YMap m) /\ v3_ft fuel (YMap m) = Some (erase_clk f)
+                              end) -> no_clk_o o = true ->
+            match feature_val r with
+            | YBool false => Some None
+            | YMap m => option_map Some (v3_ft fuel (YMap m))
+            | _ => None
+            end = Some o).
+  { intros o r Hr Hn. destruct o as [f|].
+    - destruct Hr as (m & -> & Hm0). cbn [feature_val]. rewrite Hm0. cbn [option_map]. simpl in Hn. now rewrite (no_clk_erase _ Hn).
+    - subst r. reflexivity. }
+  assert (Hfin : forall fm fu fs,
+             (match mg with None => fm = None | Some f => exists m, fm = Some (YMap m) /\ v3_ft fuel (YMap m) = Some (erase_clk f) end) ->
+             (match uf with None => fu = None | Some f => exists m, fu = Some (YMap m) /\ v3_ft fuel (YMap m) = Some (erase_clk f) end) ->
+             (match sid with None => fs = None | Some f => exists m, fs = Some (YMap m) /\ v3_ft fuel (YMap m) = Some (erase_clk f) end) ->
+             let feats := set_feature "data-stream-type-id-field-type" fs (set_feature "uuid-field-type" fu (set_feature "magic-field-type" fm [])) in
+             v3_feature (v3_ft fuel) "magic-field-type" feats = Some mg
+             /\ v3_feature (v3_ft fuel) "uuid-field-type" feats = Some uf
+             /\ v3_feature (v3_ft fuel) "data-stream-type-id-field-type" feats = Some sid).
+  { intros fm fu fs A B C. unfold set_feature, put, has. cbn. unfold v3_feature. cbn.
+    fold (feature_val fm). fold (feature_val fu). fold (feature_val fs).
+    rewrite (Hfeat _ _ A Nm), (Hfeat _ _ B Nu), (Hfeat _ _ C Ns). auto. }
+  unfold trace_features. rewrite getn_opt_of. unfold hdr_ok in Hok.
+  destruct (opt_of "packet-header-type" tl) as [[| | | | | |t]|] eqn:Eph; try discriminate.
+  - (* a packet header structure *)
+    destruct (lookup "fields" t) as [[| | | | | |fl]|] eqn:Efl; try discriminate.
+    + (* fields: null *)
+      destruct (v2_fields_keys _ _ Hf) as [[_ ->]|A]; [|rewrite Efl in A; discriminate].
+      unfold opt_fields. rewrite Efl. cbn [rbind conv_ft_if_exists].
+      unfold rd_ft, opt_of in Hm, Hu, Hs. simpl in Hm, Hu, Hs. inversion Hm; inversion Hu; inversion Hs; subst.
+      eexists. split; [reflexivity|]. apply Hfin; reflexivity.
+    + destruct (v2_fields_keys _ _ Hf) as [[A _]|A]; [unfold opt_of in A; rewrite Efl in A; discriminate|].
+      rewrite Efl in A. inversion A; subst phf. clear A.
+      unfold opt_fields. rewrite Efl. cbn [rbind].
+      destruct (member_equiv _ _ _ _ Hok Hm) as [fm [Rm Rm3]].
+      destruct (member_equiv _ _ _ _ Hok Hu) as [fu [Ru Ru3]].
+      destruct (member_equiv _ _ _ _ Hok Hs) as [fs [Rs Rs3]].
+      rewrite Rm, Ru, Rs. cbn [rbind]. eexists. split; [reflexivity|].
+      apply Hfin.
+      * destruct mg; [destruct Rm3 as (y0 & m0 & _ & _ & A & B); eauto|destruct Rm3; auto].
+      * destruct uf; [destruct Ru3 as (y0 & m0 & _ & _ & A & B); eauto|destruct Ru3; auto].
+      * destruct sid; [destruct Rs3 as (y0 & m0 & _ & _ & A & B); eauto|destruct Rs3; auto].
+  - (* no packet header *)
+    inversion Hf; subst phf. cbn [rbind conv_ft_if_exists lookup].
+    unfold rd_ft, opt_of in Hm, Hu, Hs. simpl in Hm, Hu, Hs. inversion Hm; inversion Hu; inversion Hs; subst.
+    eexists. split; [reflexivity|]. apply Hfin; reflexivity.
+Qed.
+
+Lemma named_keys : forall {A} (f : yaml -> option A) l la, named f l = Some la -> map fst la = keys l.
+Proof.
+  intros A f. unfold named. induction l as [|[k y] l IH]; intros la H; simpl in *.
+  - inversion H; reflexivity.
+  - destruct (f y); simpl in H; [|discriminate].
+    destruct (omapM (fun kv => option_map (pair (fst kv)) (f (snd kv))) l) eqn:E; simpl in H; [|discriminate].
+    inversion H; subst. simpl. now rewrite (IH _ eq_refl).
+Qed.
+
+Lemma map_id_snd : forall {A} (l : list (string * A)), map (fun na => (fst na, snd na)) l = l.
+Proof. induction l as [|[a b] l IH]; simpl; [reflexivity|now rewrite IH]. Qed.
+
+(* ================================================================== C18_equiv *)
+Theorem config_equiv : forall fuel t g,
+  v2_sem fuel t = Some g -> valid_v2 fuel t = true ->
+  exists t', conv_config t = Ok t' /\ v3_sem fuel t' = Some g.
+Proof.
+  intros fuel t g H Hv. destruct t as [| | | | | |root]; try discriminate.
+  unfold valid_v2 in Hv. rewrite H in Hv.
+  destruct (lookup "metadata" root) as [[| | | | | |m]|] eqn:Emeta; try discriminate.
+  destruct (lookup "trace" m) as [[| | | | | |tl]|] eqn:Etl; try discriminate.
+  destruct (lookup "streams" m) as [[| | | | | |sl]|] eqn:Esl; try discriminate.
+  apply andb_prop in Hv as [Hv Vds]. apply andb_prop in Hv as [Hv Vsid]. apply andb_prop in Hv as [Hv Vuf].
+  apply andb_prop in Hv as [Hv Vmg]. apply andb_prop in Hv as [Hv Vphx]. apply andb_prop in Hv as [Vph Vs].
+  cbn [v2_sem] in H.
+  destruct (keys_in ["version"; "prefix"; "options"; "metadata"] root) eqn:Kroot; [|discriminate]. cbn [negb] in H.
+  destruct (lookup "version" root) as [[| | | |ver| |]|] eqn:Ever; try discriminate.
+  rewrite Emeta in H.
+  destruct (negb (one_of ver ["2.0"; "2.1"; "2.2"])); [discriminate|].
+  destruct (keys_in ["log-levels"; "$log-levels"; "trace"; "env"; "clocks"; "$default-stream"; "streams"] m) eqn:Km; [|discriminate].
+  cbn [negb] in H.
+  destruct (mem "log-levels" (keys m) && mem "$log-levels" (keys m)) eqn:Hboth; [discriminate|].
+  apply obind_some in H as [p [Ep H]]. apply obind_some in H as [ho [Eho H]].
+  rewrite Etl, Esl in H.
+  destruct (keys_in ["byte-order"; "uuid"; "packet-header-type"] tl) eqn:Ktl; [|discriminate]. cbn [negb] in H.
+  apply obind_some in H as [bo [Ebo H]]. apply obind_some in H as [uu [Euu H]].
+  apply obind_some in H as [env [Eenv H]]. apply obind_some in H as [l1 [El1 H]]. apply obind_some in H as [l2 [El2 H]].
+  apply obind_some in H as [cks [Ecks H]]. apply obind_some in H as [phf [Ephf H]].
+  apply obind_some in H as [mg [Emg H]]. apply obind_some in H as [uf [Euf H]]. apply obind_some in H as [sid [Esid H]].
+  apply obind_some in H as [phx [Ephx H]]. apply obind_some in H as [ss [Ess H]]. apply obind_some in H as [ds [Eds H]].
+  inversion H; subst g. clear H.
+  cbn [g_ph_extra g_magic g_uuid_ft g_sid] in *.
+  destruct phx; [|discriminate].
+  (* ---- the metadata node *)
+  (* clocks *)
+  assert (Hclk : exists cl', match getn "clocks" m with
+                             | None => Ok (@None entries)
+                             | Some (YMap cl) => rbind (conv_values conv_clock cl) (fun c => Ok (Some c))
+                             | Some _ => Crash
+                             end = Ok cl'
+                             /\ match cl' with
+                                | None => cks = []
+                                | Some c => named v3_clock c = Some cks
+                                end).
+  { rewrite getn_opt_of. destruct (opt_of "clocks" m) as [[| | | | | |cl]|]; try discriminate.
+    - destruct (named_equiv conv_clock v2_clock v3_clock (fun c => c) (fun _ => true)
+                  (fun y a Ha _ => clock_equiv y a Ha) cl cks Ecks) as [cl' [C1 [C2 _]]].
+      { clear. induction cl; [reflexivity|exact IHcl]. }
+      rewrite C1. exists (Some cl'). split; [reflexivity|]. now rewrite map_id_snd in C2.
+    - inversion Ecks; subst. exists None. split; reflexivity. }
+  destruct Hclk as (cl' & Rclk & Rclk3).
+  (* packet header features *)
+  destruct (trace_features_equiv fuel tl phf mg uf sid Vph Ephf Emg Euf Esid Vmg Vuf Vsid) as (feats & Rf & Rf1 & Rf2 & Rf3).
+  (* streams *)
+  destruct (named_equiv conv_dst (v2_stream fuel) (v3_stream fuel) (fun s => s) (valid_stream fuel)
+              (stream_equiv fuel) sl ss Ess Vs) as [dsts [Rs [Rs3 Rsk]]].
+  rewrite map_id_snd in Rs3.
+  (* default stream *)
+  assert (Hds : exists dsts', match getn "$default-stream" m with
+                              | None => Ok dsts
+                              | Some name => match mark_default name dsts with
+                                             | Some d' => Ok d'
+                                             | None => CfgErr "Data stream type does not exist"
+                                             end
+                              end = Ok dsts'
+                              /\ named (v3_stream fuel) dsts' = Some (mark_named ds ss)).
+  { rewrite getn_opt_of. unfold rd_s in Eds, Vds.
+    destruct (opt_of "$default-stream" m) as [[| | | |nm| |]|]; try discriminate.
+    - inversion Eds; subst ds. rewrite <- Rsk in Vds.
+      destruct (mark_default_equiv fuel nm dsts ss Rs3 Vds) as [d' [D1 D2]]. rewrite D1. exists d'. split; [reflexivity|exact D2].
+    - inversion Eds; subst ds. exists dsts. split; [reflexivity|exact Rs3]. }
+  destruct Hds as (dsts' & Rds & Rds3).
+  assert (Hmeta : conv_meta (YMap m) = Ok (YMap ((match getn "env" m with Some e => [("environment", e)] | None => [] end)
+                                                 ++ [("type", YMap (tt_node tl m cl' feats dsts'))]))).
+  { unfold conv_meta. rewrite Etl.
+    destruct (getn "clocks" m) as [[| | | | | |cl]|]; try discriminate.
+    - apply rbind_ok in Rclk as [c [Rc Rclk]]. inversion Rclk; subst cl'. rewrite Rc. cbn [rbind]. rewrite Rf. cbn [rbind].
+      rewrite Esl, Rs. cbn [rbind]. rewrite Rds. cbn [rbind]. reflexivity.
+    - inversion Rclk; subst cl'. cbn [rbind]. rewrite Rf. cbn [rbind].
+      rewrite Esl, Rs. cbn [rbind]. rewrite Rds. cbn [rbind]. reflexivity. }
+  (* ---- the root node *)
+  assert (Hhas : has "version" root = true) by (unfold has; rewrite mem_keys, Ever; reflexivity).
+  assert (Hp : match lookup "prefix" (del "version" root) with Some q => q | None => YStr "barectf_" end = YStr p).
+  { lk. destruct (lookup "prefix" root) as [[| | | |q| |]|]; inversion Ep; reflexivity. }
+  set (cg0 := [("prefix", YMap [("identifier", YStr (fst (v3_prefixes p))); ("file-name", YStr (snd (v3_prefixes p)))])]).
+  assert (Hopts : exists cg, match getn "options" (del "prefix" (del "version" root)) with
+                             | None => Ok cg0
+                             | Some (YMap ol) =>
+                                 Ok (cg0 ++ [("header", YMap (copy_prop (copy_prop [] ol "gen-prefix-def" "identifier-prefix-definition")
+                                                                        ol "gen-default-stream-def" "default-data-stream-type-name-definition"))])
+                             | Some _ => Crash
+                             end = Ok cg
+                             /\ lookup "prefix" cg = Some (YMap [("identifier", YStr p); ("file-name", YStr (file_prefix_of p))])
+                             /\ match lookup "header" cg with
+                                | None => Some (@None bool, @None bool)
+                                | Some (YMap hl) => obind (rd_b "identifier-prefix-definition" hl) (fun a =>
+                                                    obind (rd_b "default-data-stream-type-name-definition" hl) (fun b => Some (a, b)))
+                                | Some _ => None
+                                end = Some ho).
+  { assert (Hl : lookup "options" (del "prefix" (del "version" root)) = lookup "options" root) by (lk; reflexivity).
+    unfold getn. rewrite Hl. unfold cg0. cbn [v3_prefixes fst snd]. rewrite <- file_prefix_of_rstrip.
+    destruct (lookup "options" root) as [[| | | | | |ol]|]; try discriminate.
+    - destruct (negb (keys_in ["gen-prefix-def"; "gen-default-stream-def"] ol)); [discriminate|].
+      eexists. split; [reflexivity|]. split; [reflexivity|].
+      cbn [lookup app String.eqb Ascii.eqb Bool.eqb fst snd].
+      apply obind_some in Eho as [a [Ea Eho]]. apply obind_some in Eho as [b [Eb Eho]]. inversion Eho; subst ho.
+      assert (A1 : rd_b "identifier-prefix-definition"
+                     (copy_prop (copy_prop [] ol "gen-prefix-def" "identifier-prefix-definition") ol "gen-default-stream-def"
+                        "default-data-stream-type-name-definition") = Some a).
+      { rewrite <- Ea. apply rd_b_ext. lk. destruct (lookup "gen-default-stream-def" ol); destruct (lookup "gen-prefix-def" ol); reflexivity. }
+      assert (A2 : rd_b "default-data-stream-type-name-definition"
+                     (copy_prop (copy_prop [] ol "gen-prefix-def" "identifier-prefix-definition") ol "gen-default-stream-def"
+                        "default-data-stream-type-name-definition") = Some b).
+      { rewrite <- Eb. apply rd_b_ext. lk. destruct (lookup "gen-default-stream-def" ol); destruct (lookup "gen-prefix-def" ol); reflexivity. }
+      rewrite A1. cbn [obind]. rewrite A2. reflexivity.
+    - inversion Eho; subst ho. eexists. split; [reflexivity|]. split; reflexivity. }
+  destruct Hopts as (cg & Rcg & Rcg1 & Rcg2).
+  set (r3 := del "options" (del "prefix" (del "version" root))).
+  set (trn := (match getn "env" m with Some e => [("environment", e)] | None => [] end)
+              ++ [("type", YMap (tt_node tl m cl' feats dsts'))]) in *.
+  assert (Hconv : conv_config (YMap root)
+                  = Ok (YMap (del "metadata" (put "trace" (YMap trn) (put "options" (YMap [("code-generation", YMap cg)]) r3))))).
+  { unfold conv_config. rewrite Hhas. cbn [negb]. rewrite Hp.
+    fold cg0. destruct (getn "options" (del "prefix" (del "version" root))) as [[| | | | | |ol]|]; try discriminate;
+      inversion Rcg; subst cg; cbn [rbind]; fold r3;
+      (assert (Hm' : lookup "metadata" (put "options" (YMap [("code-generation", YMap cg0)]) r3) = Some (YMap m)
+                     \/ True) by (right; exact I));
+      match goal with
+      | |- match lookup "metadata" ?X with _ => _ end = _ =>
+          assert (Hm2 : lookup "metadata" X = Some (YMap m)) by (unfold r3; lk; exact Emeta); rewrite Hm2
+      end; rewrite Hmeta; reflexivity. }
+  eexists. split; [exact Hconv|].
+  (* ---- the barectf 3 reading of the result *)
+  set (root' := del "metadata" (put "trace" (YMap trn) (put "options" (YMap [("code-generation", YMap cg)]) r3))).
+  assert (K' : keys_in ["options"; "trace"] root' = true) by (unfold root', r3; kin).
+  assert (T' : lookup "trace" root' = Some (YMap trn)) by (unfold root'; lk; reflexivity).
+  assert (O' : lookup "options" root' = Some (YMap [("code-generation", YMap cg)])) by (unfold root'; lk; reflexivity).
+  cbn [v3_sem]. rewrite K'. cbn [negb]. rewrite T'.
+  assert (Ktr : keys_in ["environment"; "type"] trn = true) by (unfold trn; destruct (getn "env" m); reflexivity).
+  assert (Ttr : lookup "type" trn = Some (YMap (tt_node tl m cl' feats dsts'))) by (unfold trn; destruct (getn "env" m); reflexivity).
+  rewrite Ktr. cbn [negb]. rewrite Ttr.
+  destruct (tt_node_lookups tl m cl' feats dsts') as (N1 & N2 & N3 & N4 & N5 & N6 & N7).
+  rewrite N7. cbn [negb]. rewrite O'. cbn [lookup String.eqb Ascii.eqb Bool.eqb fst snd].
+  rewrite Rcg1. cbn [lookup String.eqb Ascii.eqb Bool.eqb fst snd obind]. rewrite Rcg2. cbn [obind fst snd].
+  rewrite N1. rewrite Ebo. cbn [obind].
+  rewrite (rd_s_ext _ _ _ _ N2), Euu. cbn [obind].
+  assert (Henv : rd_map "environment" trn = Some env).
+  { rewrite <- Eenv. unfold rd_map, opt_of, trn. rewrite getn_opt_of. unfold opt_of.
+    destruct (lookup "env" m) as [[| | | | | |]|]; reflexivity. }
+  rewrite Henv. cbn [obind].
+  assert (Hlv : rd_map "$log-level-aliases" (tt_node tl m cl' feats dsts') = Some (match l1 with Some _ => l1 | None => l2 end)).
+  { unfold rd_map, opt_of. rewrite N3. unfold rd_map, opt_of in El1, El2. rewrite !mem_keys in Hboth.
+    destruct (lookup "$log-levels" m) as [v2|]; destruct (lookup "log-levels" m) as [v1|]; try discriminate.
+    - inversion El1; subst l1. exact El2.
+    - inversion El2; subst l2. destruct v1; inversion El1; subst; reflexivity.
+    - inversion El1; inversion El2; reflexivity. }
+  rewrite Hlv. cbn [obind].
+  assert (Hck : match opt_of "clock-types" (tt_node tl m cl' feats dsts') with
+                | None => Some []
+                | Some (YMap cl) => named v3_clock cl
+                | Some _ => None
+                end = Some cks).
+  { unfold opt_of. rewrite N4. destruct cl' as [c|]; [exact Rclk3|subst cks; reflexivity]. }
+  rewrite Hck. cbn [obind]. unfold sub at 1. rewrite N5.
+  rewrite Rf1, Rf2, Rf3. cbn [obind]. rewrite N6. rewrite Rds3. cbn [obind]. reflexivity.
 Qed.
